@@ -101,6 +101,9 @@ class World2:
         return self.side(x).c.connection_state.value > 3
 
     def can_connect(self):
+        both_down = all(s.c.connection_state.value <= 3 and reader_of(s.c) is None for s in (self.a, self.b))
+        if self.up and both_down:
+            return True  # both ends closed the connection themselves (Logout)
         return (not self.up) and all(s.c.connection_state.value <= 3 and reader_of(s.c) is None
                                      for s in (self.a, self.b))
 
